@@ -206,11 +206,7 @@ def task_pairs(t):
 
 
 def _autoref_around(raw):
-    import dd.autoref as _autoref
-    b = _autoref.BDD.__new__(_autoref.BDD)
-    b._bdd = raw
-    b.vars = raw.vars
-    return b
+    return S.autoref_around(raw)
 
 
 def task_noroots(t):
